@@ -189,5 +189,8 @@ HARNESSES = [
             quick=[dict(Q, pre=a, post=b, k=1) for a, b in P8.CONTEXTS[:4]],
             thorough=[dict(Q, pre=a, post=b, k=2, _budget=1800)
                       for a, b in P8.CONTEXTS]),
-    Harness('seeds', seeds, quick=[dict(Q, src=s) for s in SEEDS]),
+    Harness('seeds', seeds, quick=[dict(Q, src=s) for s in SEEDS] +
+            [dict(Q, src=s) for s in P8.EVERY] +
+            [dict(Q, src=s.replace(' ', '  --c\n ').replace('\n', ' \n\n'))
+             for s in P8.EVERY]),
 ]
